@@ -935,3 +935,21 @@ LEVEL_NOTE = ("Trusted: Coq kernel; extraction + OCaml glue; the scripted stubs;
               "is an oracle-only observation on the C side, printed as three booleans, never as text: the model only states THAT a message is set and which one. "
               "json_object_to_fd(NULL object) is a refused call (-1 with message), and a successfully parsed top-level 'null' is returned as NULL "
               "with a message set: both are modelled as written. Allocation failure is not exercised here (C08).")
+
+
+# ---- source -> Gallina translator for the header constants this model uses (tr/lib_consts.py; LibImplCheck.v)
+LIB_TRANSLATOR = {}
+
+
+def coq_extra():
+    import sys as _sys, os as _os
+    import fw as _fw
+    _sys.path.insert(0, _os.path.join(_fw.VERIF, "tr"))
+    import lib_consts
+    files, info = lib_consts.coq_extra_for(_fw)
+    LIB_TRANSLATOR.update(info)
+    return files
+
+
+def extra_coverage():
+    return dict(lib_translator=dict(LIB_TRANSLATOR))
